@@ -764,7 +764,7 @@ func (fx *FnExec) builtin(st *State, b *ssa.Builtin, cc *ssa.CallCommon, args []
 	case "append":
 		return []*Term{fx.doAppend(st, cc, args, p)}
 	case "copy":
-		fx.fail("copy unsupported")
+		return []*Term{fx.doCopy(st, cc, args, p)}
 	case "delete":
 		mt := cc.Args[0].Type().Underlying().(*types.Map)
 		dn, _, ds, _ := fx.mapHeapNames(mt)
@@ -825,6 +825,33 @@ func (fx *FnExec) doAppend(st *State, cc *ssa.CallCommon, args []*Term, p token.
 	cp := fx.c.Fresh("cap", SInt)
 	fx.c.Assume(Implies(st.guard, Ge(cp, Add(n1, n2))))
 	return MkSlc(r, IntLit(0), Add(n1, n2), cp)
+}
+
+// doCopy: copy(dst, src) for two slices: the first min(len(dst), len(src)) elements of dst become those of src (read
+// from the heap before the copy: overlapping slices behave like memmove, as in Go); everything else in dst's backing
+// array stays. A store into dst's backing array as far as the frame is concerned.
+func (fx *FnExec) doCopy(st *State, cc *ssa.CallCommon, args []*Term, p token.Pos) *Term {
+	dst, src := args[0], args[1]
+	slT, ok := cc.Args[0].Type().Underlying().(*types.Slice)
+	if !ok || isStringT(cc.Args[1].Type()) {
+		fx.fail("copy unsupported (string source)")
+	}
+	name, hs := fx.elemHeapName(slT.Elem())
+	if fx.e.pureElemHeaps[name] {
+		fx.fail("copy into a slice of syntax-tree nodes (%s): such slices are assumed never to be written (A4)", name)
+	}
+	h := fx.heapGet(st, name, hs)
+	n := Ite(Le(SlcLen(dst), SlcLen(src)), SlcLen(dst), SlcLen(src))
+	base, off := SlcBase(dst), SlcOff(dst)
+	fx.assignCheckRef(st, base, "elem", p)
+	es := fx.e.sortOf(slT.Elem())
+	narr := fx.c.Fresh("cpy", ArrSort(SInt, es))
+	k := Var("k!c", SInt)
+	sel := App("select", es, narr, k)
+	in := And(Le(off, k), Lt(k, Add(off, n)))
+	fx.c.Assume(Implies(st.guard, Forall([]*Term{k}, Eq(sel, Ite(in, fx.elemAt(h, src, Sub(k, off)), Select(Select(h, base), k))), sel)))
+	fx.heapSet(st, name, Store(h, base, narr))
+	return n
 }
 
 // bytesToStr returns the string holding the current contents of a byte slice.
